@@ -593,3 +593,11 @@ Proof.
   - simpl. repeat split; repeat constructor; simpl; intuition discriminate.
   - eexists. split; [vm_compute; reflexivity | discriminate].
 Qed.
+
+(* Every remaining statement of this file, so that none is left unaudited. *)
+Print Assumptions C07_complete_refuted.
+Print Assumptions C07_alias_classified.
+Print Assumptions C07_alias_value_excluded.
+Print Assumptions C07_alias_reused_name_refuted.
+Print Assumptions C07_alias_complete_refuted.
+Print Assumptions C07_resolves_text_refuted.
